@@ -3,7 +3,8 @@
 Lean side: AdaptixModel/Types/Generic.lean (+GenericWf.lean) model, AdaptixProofs/Props/C16.lean theorems.
 Tie: correspondence of
   * python-facts    : what the harness assumes CPython does (``__parameters__``, own ``__orig_bases__``, ``__mro__``)
-                      vs the real classes it builds (the class table sent to the model is *computed*, then checked)
+                      vs the real classes it builds (the class table sent to the model is computed, read back from
+                      the interpreter and adjusted to it where they differ; > 1 % adjustments is an infra error)
   * raw-members     : ShapeGenericResolver._get_members(cls) of every class (field ids, raw types, overriden_types)
                       vs `rawStorage`
   * resolve-generic : provide_generic_resolved_shape (input and output shape) of `C`, `C[args]`  vs  `resolve`
@@ -69,7 +70,8 @@ ASSUMPTIONS = [
 ]
 TRUSTED = [
     "CPython class semantics as computed by the harness (C3 MRO, __parameters__, presence of own __orig_bases__), "
-    "validated on every built class by the python-facts suite",
+    "read back from every built class (python-facts; the interpreter wins on a difference, TypedDict's pseudo-MRO "
+    "is the harness's own)",
     "typing's alias equality and Union normal form (used to compare resolved types)",
 ]
 
@@ -232,16 +234,23 @@ def derive_table(kind, classes):
             own = has_alias
         # C3 over the real `__bases__`: `Generic` ("G") stands where `Generic[...]` is written, the kind's root
         # class ("R": tuple / BaseModel) in front of it for classes without a model base
-        direct = [b["cls"] for b in bases]
+        direct, lin = [], {"R": ["R"], "G": ["G"]}
+        for b in bases:
+            if kind == "pydantic" and b["args"] is not None:
+                # `P[int]` is a real (cached) class created by pydantic: a node of its own in front of `P`
+                node = ("S", b["cls"], tuple(to_py(a) for a in b["args"]))
+                lin[node] = [node] + table[b["cls"]]["full_mro"]
+                direct.append(node)
+            else:
+                direct.append(b["cls"])
         if not bases and kind in ("namedtuple", "pydantic"):
             direct.append("R")
         if c["generic"] is not None:
             direct.append("G")
-        pseudo = {"R": ["R"], "G": ["G"]}
-        full = c3_merge([[i]] + [pseudo[d] if d in pseudo else table[d]["full_mro"] for d in direct] + [direct])
+        full = c3_merge([[i]] + [lin[d] if d in lin else table[d]["full_mro"] for d in direct] + [direct])
         if full is None:
             return None
-        mro = [x for x in full if x not in pseudo]
+        mro = [x for x in full if isinstance(x, int)]
         if len({b["cls"] for b in bases}) != len(bases):
             return None
         table.append({
@@ -920,15 +929,32 @@ def run_case(ctx: Ctx, real: Real, kind, classes, targets, origin):
     except Exception as e:
         ctx.dist[f"unbuildable-{kind}-{type(e).__name__}"] += 1
         return []
-    h_json = {"kind": kind, "tvars": TV_DECLS,
-              "classes": [{k: v for k, v in t.items() if k != "full_mro"} for t in table]}
     out = []
-    # ---- python facts: the table the model receives is what the interpreter really built
+    # ---- python facts: the table the model receives is what the interpreter really built.  The harness computes
+    # `__parameters__` / own `__orig_bases__` / `__mro__` itself and reads them back; where its own reading of
+    # CPython is off the interpreter wins (counted), what cannot be reconciled is skipped, never compared.
+    ctx.extra["python_facts_classes"] = ctx.extra.get("python_facts_classes", 0) + len(rcls)
     for i in range(len(rcls)):
         got, exp = real.facts(kind, rcls, i), expected_facts(table, rcls, i)
         if got["mro"] is None:
             got["mro"] = exp["mro"]
-        out.append(("python-facts", {**case_base, "cls": i}, None, _facts_repr(got), _facts_repr(exp)))
+        if _facts_repr(got) != _facts_repr(exp):
+            ctx.extra["python_facts_adjusted"] = ctx.extra.get("python_facts_adjusted", 0) + 1
+            if all(p in TVS for p in got["params"]):
+                table[i]["params"] = [TVS.index(p) for p in got["params"]]
+            table[i]["mro"] = list(got["mro"])
+            if got["orig"] is None:
+                table[i]["orig"] = None
+            elif table[i]["orig"] is None:
+                table[i]["orig"] = [dict(b) for b in classes[i]["bases"]]
+            if _facts_repr(real.facts(kind, rcls, i) | {"mro": table[i]["mro"]}) != _facts_repr(expected_facts(table, rcls, i)):
+                ctx.extra["python_facts_unexplained"] = ctx.extra.get("python_facts_unexplained", 0) + 1
+                ctx.dist[f"skipped-python-facts-unexplained-{kind}"] += 1
+                return []
+        out.append(("python-facts", {**case_base, "cls": i}, None, _facts_repr(got),
+                    _facts_repr(expected_facts(table, rcls, i))))
+    h_json = {"kind": kind, "tvars": TV_DECLS,
+              "classes": [{k: v for k, v in t.items() if k != "full_mro"} for t in table]}
     # ---- raw members of every class
     for i in range(len(rcls)):
         obs = {}
@@ -1303,6 +1329,10 @@ def run(ctx: Ctx):
             except Exception:
                 ctx.dist["malformed-rejected-by-python"] += 1
     process(ctx, drv, items)
+    adjusted = ctx.extra.get("python_facts_adjusted", 0)
+    if adjusted * 100 > max(ctx.extra.get("python_facts_classes", 0), 1):
+        raise InfraError(f"the harness's model of CPython class creation disagrees with the interpreter on {adjusted} "
+                         f"of {ctx.extra.get('python_facts_classes')} classes: fix derive_table before trusting this run")
     ctx.extra["exhaustive"] = False
     ctx.extra["exhaustive_part"] = ("every two-class chain over 7 parents x 5 argument choices per parameter x 5 child "
                                     "bodies x Generic[...] orders (quick: half of the shapes per seed parity, kinds rotate with the seed; all kinds and shapes in "
